@@ -81,8 +81,11 @@ def run(ck, prog):
         key = "ctor:%s#%d" % (b.path, per[b.path])
         no = prov.origins(b, t["args"][names.index("name")])
         lo = prov.origins(b, t["args"][names.index("define_loc")])
-        ns = {pair_source(o) for o in no}
-        ls = {pair_source(o) for o in lo}
+        # values that can only be `None` (an early `?` exit, a literal None) carry no name or range
+        def nothing(o):
+            return (o[0] == "call" and o[1].endswith("::from_residual")) or (o[0] == "agg" and str(o[1]).endswith("option::Option"))
+        ns = {pair_source(o) for o in no if not nothing(o)}
+        ls = {pair_source(o) for o in lo if not nothing(o)}
         same = len(ns) == 1 and len(ls) == 1 and next(iter(ns))[0] is not None and \
             next(iter(ns))[0] == next(iter(ls))[0] and next(iter(ns))[1] == "name" and next(iter(ls))[1] == "loc"
         if same:
